@@ -18,7 +18,9 @@ META = {
     'on the global indices, column 0 = time, 1 = space (R-accumulate); '
     'serial and pool paths call the same method with the same flag through '
     'an order-preserving pool created after the globals are set '
-    '(R-samecall, R-ordered, R-handover).',
+    '(R-samecall, R-ordered, R-handover); the four estimator orders go '
+    'to the rules they are named for (R-orders) and the seminorm '
+    'routines have the structure certified under C14.',
     'checker_cmd': 'python3-vt -m stbem_static C09 --tier <tier>',
     'trusted_base': ['CPython ast', 'sympy', 'linear fact domain',
                      'adjacency axioms: a neighbour across a time edge is '
